@@ -27,6 +27,7 @@
     C08_parse_bridge         `internIn` of the parser model = `get_id_mut` of the interner
     C08_parse_registrations  accepted or rejected, a parse leaves the interner after exactly the calls
                              `buildRegs`; invariant, persistence, duplicate-freeness, what each id means
+    C08_parse_registrations_inv  the part that needs the table invariant only
     C08_parse_tree           every id in the tree was returned by one of those calls, is in range, and
                              equal ids <=> equal strings in the tables left (and in all later ones)
     C08_parse_places         which call belongs to which start tag / attribute / declaration / PI
@@ -365,6 +366,30 @@ theorem C08_parse_registrations (x : Interner) (hx : Interner.WF x) (m : Mode) (
     exact Env.regAll_ids_iff _ _ (h2 ▸ h6) hi hj hs
   · intro hc
     exact Interner.regAll_ids _ hx.inv (h2 ▸ hc)
+
+/-- The same with the table invariant alone (an earlier `add_name_ns` may have been given a
+    namespace id this `Xot` never issued, which the API accepts): exactly those calls, invariant,
+    persistence, growth at the end only, duplicate-free tables.  Only "every name's namespace id is
+    in range" — hence the reading of names as expanded-name STRINGS — needs `Interner.WF`. -/
+theorem C08_parse_registrations_inv (x : Interner) (hx : Interner.Inv x) (m : Mode) (len : Nat)
+    (ts : List Token) (lexErr : Option Nat) (env' : Env)
+    (hb : (∃ p, build m len (Env.ofInterner x) ts lexErr = .ok p ∧ p.env = env') ∨
+          (∃ e, build m len (Env.ofInterner x) ts lexErr = .err e env')) :
+    Env.ofInterner (x.regAll (buildRegs (Env.ofInterner x) ts)).1 = env' ∧
+    Interner.Inv (x.regAll (buildRegs (Env.ofInterner x) ts)).1 ∧
+    x.Mono (x.regAll (buildRegs (Env.ofInterner x) ts)).1 ∧ (Env.ofInterner x).PrefixOf env' ∧
+    env'.names.Nodup ∧ env'.prefixes.Nodup ∧ env'.namespaces.Nodup := by
+  obtain ⟨b1, b2⟩ := Interner.parse_build hx m len ts lexErr
+  have he : Env.ofInterner (x.regAll (buildRegs (Env.ofInterner x) ts)).1 = env' := by
+    rcases hb with ⟨p, hp, rfl⟩ | ⟨e, he⟩
+    · exact b1 p hp
+    · exact b2 e env' he
+  have hi := Interner.regAll_inv (buildRegs (Env.ofInterner x) ts) hx
+  have hm := Interner.regAll_mono (buildRegs (Env.ofInterner x) ts) x
+  refine ⟨he, hi, hm, he ▸ hm.prefixOf, ?_, ?_, ?_⟩
+  · rw [← he]; exact hi.nm.nodup
+  · rw [← he]; exact hi.pf.nodup
+  · rw [← he]; exact hi.ns.nodup
 
 open XotModel.IdParse in
 /-- THE TREE of an accepted parse.  Every id it stores (element / attribute / PI names, the prefix
